@@ -53,4 +53,33 @@ def maybeUnwrap (apt : List (UInt8 × UInt8)) (rtxSsrc : Option UInt32) (ssrc : 
     | none => none
     | some ppt => if ssrc = 0 then none else unwrapRtx p ssrc ppt
 
+/-- what an `RtpReceiver` holds for RTX: the `apt` map (`set_rtx_apt_map`), the negotiated RTX SSRC
+(`set_rtx_ssrc`) and the primary SSRC (`set_ssrc` from the SDP, then latched by the receive loop; 0 = unknown) -/
+structure RxState where
+  apt : List (UInt8 × UInt8)
+  rtxSsrc : Option UInt32
+  ssrc : UInt32
+  deriving Repr
+
+/-- the receiver a remote m-section creates (`set_remote_description`, new-transceiver branch): `apt` from the
+`a=fmtp` lines, the RTX SSRC from `a=ssrc-group:FID <primary> <rtx>`, the primary SSRC from the `a=ssrc` lines
+(with a FID group only the group's primary counts, otherwise the first one) -/
+def sdpRx (attrs : List (Bytes × Option Bytes)) (fid : Option (UInt32 × UInt32)) (ssrcs : List UInt32) : RxState :=
+  { apt := extractApt attrs [],
+    rtxSsrc := fid.map (·.2),
+    ssrc := match fid with
+      | some (p, _) => if ssrcs.contains p then p else 0
+      | none => ssrcs.head?.getD 0 }
+
+/-- one iteration of the receive loop for the main track: `maybe_unwrap_rtx`; whatever goes on to the
+depacketizer latches its SSRC as the primary one -/
+def RxState.step (st : RxState) (p : Packet) : RxState × Option Packet :=
+  match maybeUnwrap st.apt st.rtxSsrc st.ssrc p with
+  | none => (st, none)
+  | some q => ({ st with ssrc := q.hdr.ssrc }, some q)
+
+def rxRun (st : RxState) : List Packet → List (Option Packet) × UInt32
+  | [] => ([], st.ssrc)
+  | p :: ps => let r := st.step p; let t := rxRun r.1 ps; (r.2 :: t.1, t.2)
+
 end RtcModel.C15
